@@ -12,11 +12,9 @@ package vm
 //   kind purestate: the result is a function of the ghost state version and the
 //                   arguments (one unit of ghost work).
 //   kind mutating : produces a new ghost state version (the frame is "dirty").
-// Snapshot / RevertToSnapshot: the ghost map snapstate remembers the state
-// version at each snapshot id; reverting restores it (go-ethereum's journal).
+// Snapshot / RevertToSnapshot: reverting restores the state version recorded at the
+// snapshot (go-ethereum's journal; trusted).
 //@ ghostvar statever u64
-//@ ghostvar nextsnap u64
-//@ ghostvar snapstate map_u64_u64
 
 //@ iface vm.StateDB.GetBalance
 //@   kind purestate
@@ -106,14 +104,15 @@ package vm
 //@ iface vm.StateDB.AddPreimage
 //@   kind mutating
 //@ end
+// Snapshot ids are never reused within one execution (go-ethereum: nextRevisionId only grows), so "the state
+// version recorded for snapshot id" is a function of the id: the uninterpreted function snapver_of.
 //@ iface vm.StateDB.Snapshot
-//@   modifies ghost:snapstate, ghost:nextsnap
-//@   ensures id: result == int(old(nextsnap)) && nextsnap == old(nextsnap) + 1 && snapstate[old(nextsnap)] == statever
-//@   ensures others: forall k uint64 :: k != old(nextsnap) ==> snapstate[k] == old(snapstate[k])
+//@   kind purestate
+//@   ensures records-version: uf("snapver_of", "bv64", uint64(result)) == statever
 //@ end
 //@ iface vm.StateDB.RevertToSnapshot
 //@   modifies ghost:statever
-//@   ensures restored: statever == snapstate[uint64($1)]
+//@   ensures restored: statever == uf("snapver_of", "bv64", uint64($1))
 //@ end
 
 // ---------------------------------------------------------------------------
@@ -198,12 +197,20 @@ package vm
 //@ func (github.com/artela-network/aspect-core/djpm.Aspect).PreContractCall
 //@   trusted
 //@   kind mutating
-//@   ensures result-nonnil: result != nil
+//@   modifies vm.CallTree.count, vm.CallTree.root, map:map[uint64]*vm.Call, vm.Call.Children, vm.Call.Ret, vm.Call.Err, vm.Call.RemainingGas, cell:*vm.Call
+//@   modifies vm.EVMInterpreter.returnData, vm.EVM.callGasTemp
+//@   ensures result-nonnil: result != nil && fresh(result)
+//@   ensures gas-not-created [C02 C06]: result.Gas <= $6
+//@   ensures tree-grows [C07]: $top0.tracer.callTree.count >= old($top0.tracer.callTree.count)
 //@ end
 //@ func (github.com/artela-network/aspect-core/djpm.Aspect).PostContractCall
 //@   trusted
 //@   kind mutating
-//@   ensures result-nonnil: result != nil
+//@   modifies vm.CallTree.count, vm.CallTree.root, map:map[uint64]*vm.Call, vm.Call.Children, vm.Call.Ret, vm.Call.Err, vm.Call.RemainingGas, cell:*vm.Call
+//@   modifies vm.EVMInterpreter.returnData, vm.EVM.callGasTemp
+//@   ensures result-nonnil: result != nil && fresh(result)
+//@   ensures gas-not-created [C02 C06]: result.Gas <= $6
+//@   ensures tree-grows [C07]: $top0.tracer.callTree.count >= old($top0.tracer.callTree.count)
 //@ end
 
 // Host callbacks registered by the embedder in aspect-core/types (package-level
